@@ -42,7 +42,7 @@ MANIFEST = dict(
   note=TRUST + "covered by the correspondence and the oracle only (modelled, no theorem): push_back/subc on LabeledData, "
        "Data(size, element, batchSize) batch layout beyond its sum, shapes after transform; sharing of batches between datasets (shared_ptr) and the storage "
        "layout of sparse batches are not modelled; WeightedLabeledData is covered by the correspondence only (same model, weights checked by the oracle; "
-       "ops new/repartition/splitBatch/splice/append/indexedSubset/shuffle). Findings F1, F9, F10, F13 (findings_proposed/C03.md) make the check print "
+       "ops new/repartition/splitBatch/splitAtElement/splice/append/indexedSubset/shuffle). Findings F1, F9, F10, F13 (findings_proposed/C03.md) make the check print "
        "VIOLATION on the unrepaired tree.",
   technique="Lean 4 proofs (induction over partitions and operation histories) on a model whose batch arithmetic is regenerated from the C++ "
             "on every run + differential correspondence with the real containers (ASan/UBSan)",
@@ -103,7 +103,7 @@ def gen_labels(r, n):
     return [r.choice(pool) for _ in range(n)]
 
 
-W_OPS = {"new", "repart", "splitb", "splice", "append", "subset", "shuffle", "copy"}
+W_OPS = {"new", "repart", "splitb", "splitat", "splice", "append", "subset", "shuffle", "copy"}
 BRANCHES = [(6, "new"), (16, "repart"), (24, "splitb"), (31, "splitat"), (35, "splice"), (41, "append"), (44, "pushb"),
             (50, "subset"), (54, "subc"), (62, "reorder"), (67, "shuffle"), (76, "rbc"), (82, "bin"), (85, "ovr"),
             (89, "xform"), (91, "xlab"), (93, "copy"), (96, "iter"), (100, "view")]
